@@ -203,6 +203,9 @@ def rule_prereq(ctx):
     C12.rule_R9(R.Retag(ctx, "C12."))
     C03.rule_R7(R.Retag(ctx, "C03."))
     C03.rule_R2(R.Retag(ctx, "C03."))
+    from . import C02
+    C02.rule_R1_R2(R.Retag(ctx, "C02."))
+    C12.rule_R10(R.Retag(ctx, "C12."))
 
 
 def run(ctx):
